@@ -23,6 +23,8 @@ NOTE = ["the two regular expressions enter the model as predicates: re.fullmatch
         "cbor2 load/dump modelled as dec/enc (identity on the canonical envelopes the tool writes)"]
 
 DEP_RES = [None, r"#dep.*", r"nomatch", r".*", r"#dep1_0|#dep2_0"]
+CONFUSABLE = [["#app_bin", "#app.bin"], ["#aab", "#a+b"], ["#fw7", "#fw\\d"], ["#ab", "#a?b", "#a*b"], ["#x", "#x|#y", "#y"],
+              ["file:///C:\\images\\update.bin", "#other"], ["#x[1", "#x1"], ["#(", "#)"], ["#a**", "#a"], ["#p$", "#p"], ["#^q", "#q"]]
 OMIT_RES = [None, r"zzz", r".*", r"#file.*", r"(#app|p)\d", r"http://.*"]
 
 
@@ -102,6 +104,15 @@ def work(args):
     rng = random.Random(f"{seed}:{index}:c11")
     drv = common.worker_driver()
     desc, files, shape = build_tree(rng, seed, index, rng.choice([0, 1, 2, 3]), [0])
+    special = []
+    if rng.random() < 0.5:
+        # payload names are literal text: siblings that the *pattern reading* of a name would match, and names that are not patterns at all
+        special = list(rng.choice(CONFUSABLE))
+        pl = desc["SUIT_Envelope_Tagged"].setdefault("suit-integrated-payloads", {})
+        for k, nm in enumerate(special):
+            fn = f"special{k}.bin"
+            files[fn] = bytes([0xFF]) + nm.encode() + bytes(rng.randrange(0, 256) for _ in range(rng.randrange(0, 12)))
+            pl[nm] = fn
     c = suitcases.run_impl_create(desc, files)
     if "ok" not in c:
         return None
@@ -162,7 +173,7 @@ def work(args):
         root, ints, strs = members(b)
         cand = [n for n, v in strs] + ["#absent"]
         for _ in range(2):
-            name = rng.choice(cand)
+            name = rng.choice(special) if special and rng.random() < 0.7 else rng.choice(cand)
             repl = rng.choice([None, None, b"", bytes([0xFF]) + os.urandom(rng.randrange(0, 40))]) if True else None
             want_file = rng.random() < 0.6 and name != "#absent"
             impl = impl_extract(b, name, repl, want_file, d)
